@@ -207,6 +207,10 @@ asg!(SubAssign, sub_assign, -);
 asg!(MulAssign, mul_assign, *);
 asg!(DivAssign, div_assign, /);
 asg!(RemAssign, rem_assign, %);
+impl num_traits::Bounded for Q {
+    fn min_value() -> Q { Q::int(-(1 << 100)) }
+    fn max_value() -> Q { Q::int(1 << 100) }
+}
 impl Zero for Q {
     fn zero() -> Q {
         Q::int(0)
